@@ -113,7 +113,7 @@ fn main() {
     let (level, rule, assumptions): (&str, &str, Vec<String>) = match property.as_str() {
         "C09" => (
             "exploration",
-            "texts: (i) all sequences of <= k fragments over a 70-fragment alphabet of pest syntax (identifiers, every bracket/operator/modifier, terminated and unterminated literals, ranges, every escape form incl. surrogate / out-of-range / short / unknown ones, repetition counts incl. 0, inverted and u32-overflowing ones, PUSH/PEEK/PUSH_LITERAL/tag forms incl. overflowing slice indices, comment and doc-comment openers/closers, non-ASCII and 4-byte characters, CRLF) and all sequences of <= kb body fragments inside two rule frames; (ii) every real grammar of the repository, each of its prefixes at a character boundary, and every single-lexeme deletion, duplication and substitution by alphabet fragments; (iii) nesting/length sweeps up to the stated depth; (iv) all three-rule grammars r/NEWLINE/eol whose bodies are one of 7 reference shapes (bare, choice, optional, (!X ~ ANY)*, prefix, suffix, star) around any of the three names, with rule modifiers. For each text parse_and_optimize (reader + validator + optimizer) and docs::consume must return without panic/abort/hang (worker processes with a 20 s watchdog), and every reported error must be located inside the text on character boundaries and render (also after renamed_rules). Non-trivial: texts that are accepted or contain a rule definition",
+            "texts: (i) all sequences of <= k fragments over a 70-fragment alphabet of pest syntax (identifiers, every bracket/operator/modifier, terminated and unterminated literals, ranges, every escape form incl. surrogate / out-of-range / short / unknown ones, repetition counts incl. 0, inverted and u32-overflowing ones, PUSH/PEEK/PUSH_LITERAL/tag forms incl. overflowing slice indices, comment and doc-comment openers/closers, non-ASCII and 4-byte characters, CRLF) and all sequences of <= kb body fragments inside two rule frames; (ii) every real grammar of the repository, each of its prefixes at a character boundary, and every single-lexeme deletion, duplication and substitution by alphabet fragments; (iii) nesting/length sweeps up to the stated depth; (iv) all three-rule grammars r/NEWLINE/eol whose bodies are one of 7 reference shapes (bare, choice, optional, (!X ~ ANY)*, prefix, suffix, star) around any of the three names, with rule modifiers; (v) WHITESPACE/COMMENT spelled over several lines with bad bodies next to a second error; long texts of every token kind. Short texts are run a second time with detailed error tracking on, and every text also through the route reader -> consume_rules -> optimize. For each text parse_and_optimize (reader + validator + optimizer) and docs::consume must return without panic/abort/hang (worker processes with a 20 s watchdog), and every reported error must be located inside the text on character boundaries and render (also after renamed_rules). Non-trivial: texts that are accepted or contain a rule definition",
             vec!["repetition counts are kept <= 64 except the explicit overflow literals, which must be rejected (the property bounds the counts)".into(), "time is observed against a watchdog, not proven".into()],
         ),
         "C07" => (
